@@ -222,19 +222,42 @@ def stream(ck):
     inloop = [blk for h, blk in loops.items() if p0.bb in blk]
     ck.verdict(bool(inloop), "6", "T5-loop-exit", cl, "polled-until-Pending", "poll_next is called in a loop (until Pending or end of stream)", "the stream is polled once per wake-up only: items that are ready together are delayed / lost when wakes coalesce", site=cl.where(p0.bb))
     cbs = T.calls(cl, name=("call_mut", "call", "call_once"), self_kind=("param",))
-    none_cb, some_cb = [], []
+    # the Option<Item> poll_next produced: `(poll as Ready).0`
+    def is_payload(op):
+        return any(r == ("call", p0.bb) and " as Ready" in p_ and not any(x in (" as Some",) for x in p_) for r, p_ in cl.resolve(op))
+
+    none_cb, some_cb, pass_cb = [], [], []
     for cb in cbs:
         for r, p in cl.resolve(cb.args[1]):
             if r[0] == "agg":
-                v = T.agg_variant(cl, cl.agg_at(r[1], r[2])["fields"][0])
+                a0 = cl.agg_at(r[1], r[2])["fields"][0]
+                v = T.agg_variant(cl, a0)
                 if any(x[1] == "None" for x in v):
                     none_cb.append(cb)
                 if any(x[1] == "Some" for x in v):
                     some_cb.append(cb)
-    ck.floor("6", "StreamSource callback sites (Some / None)", len(none_cb) + len(some_cb), 2)
+                if is_payload(a0) and cb not in pass_cb:
+                    pass_cb.append(cb)  # the callback is handed poll_next's Option as it is (Some(item) or None)
+    ck.floor("6", "StreamSource callback sites (Some / None)", len(none_cb) + len(some_cb) + 2 * len(pass_cb), 2)
+    # the edges on which that Option is None: a switch on its discriminant, or on is_none()/is_some() of it
+    none_edges = []
+    for sw in T.switches_on_expr(cl, lambda e: e[0] == "discr"):
+        e = cl.expr(cl.blocks[sw]["term"]["on"])
+        if is_payload({"c": e[2]}):
+            none_edges += T.discr_edges(cl, sw, 0)
+    for c2 in T.calls(cl, name=("is_none", "is_some")):
+        if not cl.is_cleanup(c2.bb) and any(r == ("call", p0.bb) and " as Ready" in p_ for r, p_ in cl.resolve(c2.args[0])):
+            tr_, fa_ = T.bool_split(cl, c2.bb)
+            none_edges += tr_ if c2.name == "is_none" else fa_
+    end_sites = [cb.to for cb in none_cb] + ([x for _, x in none_edges] if pass_cb else [])
     for cb in none_cb:
         again = cl.find_path([cb.to], [p0.bb])
-        ck.verdict(again is None, "6", "T5-loop-exit", cl, "None=>loop-left", "after the end-of-stream callback the stream is not polled again (a single None)", "the stream is polled again after its end was reported: None can be delivered more than once", site=cl.where(cb.bb))
+        ck.verdict(again is None, "6", "T5-loop-exit", cl, "None=>loop-left", "after the end-of-stream callback the stream is not polled again (a single None)", "the stream is polled again after its end was reported: None is delivered more than once / the stream is polled after completion", site=cl.where(cb.bb))
+    if pass_cb:
+        again = cl.find_path([x for _, x in none_edges], [p0.bb]) if none_edges else [0]
+        ck.verdict(again is None, "6", "T5-loop-exit", cl, "None=>loop-left", "once poll_next produced None the stream is not polled again (a single None)", "the stream is polled again after it produced None: None is delivered more than once / the stream is polled after completion", site=cl.where(pass_cb[0].bb))
+        bad = T.t2_all_exits(cl, [x for _, x in none_edges], [cb.bb for cb in pass_cb + none_cb]) if none_edges else [0]
+        ck.verdict(bad is None or all(cl.dominates(cb.bb, sw) for cb in pass_cb for sw, _ in none_edges), "6", "T2-all-exits", cl, "None=>callback", "the end of the stream is reported to the callback", "the stream can end without the callback being told (no None is delivered)", site=cl.where(pass_cb[0].bb))
     for cb in some_cb:
         for r, p in cl.resolve(cb.args[1]):
             if r[0] == "agg":
@@ -243,29 +266,42 @@ def stream(ck):
                     if r2[0] == "agg":
                         item = cl.agg_at(r2[1], r2[2])["fields"][0]
                         ck.verdict(T.resolves_to_call(cl, item, [p0.bb]), "6", "T6-provenance", cl, "item=poll_next-payload", "the item handed to the callback is the one poll_next produced", "the forwarded item is not poll_next's payload", site=cl.where(cb.bb))
-    # parent: end_of_stream => Remove
-    caps = common.closure_captures(pe, cl)
+    # parent: end of stream => Remove. The closure records the end in a cell of the parent (a bool, or an Option that
+    # carries the final action); the parent returns Remove whenever that cell is set.
+    cells = common.ClosureCells(pe, cl)
     rets = T.ok_returns(pe)
     rm = [i for i, v in rets if v == {("sources::PostAction", "Remove")}]
-    flag_local = None
-    for n, (loc, aps, _) in caps.items():
-        if loc is not None and f.types[pe.local_ty(loc)]["s"] == "bool":
-            for i, j, st in cl.statements():
-                if st["s"] == "assign" and T.path_has(cl, st["pl"], "." + n) and st["rv"]["r"] == "use" and st["rv"]["o"].get("k", {}).get("v") == 1:
-                    if any(i in cl.reachable([cb.to]) for cb in none_cb):
-                        flag_local = loc
-                        set_after = [i2 for i2, j2, st2 in cl.statements() if st2["s"] == "assign" and T.path_has(cl, st2["pl"], "." + n)]
-                        for cb in none_cb:
-                            bad = T.t2_all_exits(cl, [cb.to], set_after)
-                            ck.verdict(bad is None, "6", "T2-all-exits", cl, "None=>end-flag", "the end-of-stream flag is set on every path after the None callback", "None can be delivered without the end of the stream being remembered", site=cl.where(cb.bb))
+    end_cells = {}
+    for i, c in cells.set_stores():
+        if end_sites and i in cl.reachable(end_sites):
+            end_cells.setdefault(c, []).append(i)
+    for c, stores in end_cells.items():
+        bad = T.t2_all_exits(cl, end_sites, stores)
+        ck.verdict(bad is None, "6", "T2-all-exits", cl, "None=>end-flag", "the end of the stream is recorded on every path after None was seen", "None can be delivered without the end of the stream being recorded (the source would not remove itself)", site=cl.where(stores[0]))
     ok = False
-    if flag_local is not None and rm:
-        for sw, blk in enumerate(pe.blocks):
-            if blk["term"]["t"] == "switch" and flag_local in T.copy_chain_locals(pe, blk["term"]["on"]):
-                tr_e = [t for t, lab in pe.succ_edges(sw) if t not in [x for v, x in blk["term"]["targets"] if v == 0]]
-                others = [i for i, v in rets if i not in rm]
-                if pe.find_path(tr_e, others, removed_blocks=rm) is None:
-                    ok = True
+    for c, stores in end_cells.items():
+        yes, no = cells.set_edges(c)
+        if not yes:
+            continue
+        others = [i for i, v in rets if i not in rm]
+        if rm and pe.find_path([t for _, t in yes], others, removed_blocks=rm) is None:
+            ok = True
+        # the cell carries the action itself: every store puts Some(Remove) into it and the 'set' edge returns its payload
+        carried = set()
+        for i in stores:
+            for st in cl.blocks[i]["st"]:
+                if st["s"] == "assign" and cells.of_closure_place(st["pl"]) == c:
+                    rv = st["rv"]
+                    fl = rv["fields"] if rv["r"] == "agg" else [fld for r_, p_ in cl.resolve(rv["o"]) if r_[0] == "agg" for fld in cl.agg_at(r_[1], r_[2])["fields"]] if rv["r"] == "use" and "k" not in rv["o"] else []
+                    for x in fl:
+                        carried |= T.agg_variant(cl, x)
+        if carried == {("sources::PostAction", "Remove")}:
+            pay = [i for i, v in rets if not v]
+            for i in pay:
+                st = [s_ for s_ in pe.blocks[i]["st"] if s_["s"] == "assign"]
+                if T.reachable_only_via(pe, i, yes) and any(cells.of_parent_place(op_place(s_["rv"]["o"]))[1][: len(c[1])] == c[1] and cells.of_parent_place(op_place(s_["rv"]["o"]))[0] == c[0] for s_ in st if s_["rv"]["r"] == "use" and op_place(s_["rv"]["o"]) is not None and cells.of_parent_place(op_place(s_["rv"]["o"])) is not None):
+                    if pe.find_path([t for _, t in yes], [x for x, v in rets if x != i and x not in rm]) is None:
+                        ok = True
     ck.verdict(ok, "6", "T4-guarded-by", pe, "end-of-stream=>Remove", "after the end of the stream the source returns PostAction::Remove", "the stream source does not remove itself after its stream ended", site=pe.where())
     nw = ck.opt_body("StreamSource::new")
     if nw is not None:
